@@ -70,6 +70,15 @@ func openPaths(c *mon.Case, st *store.Store, root cid.Cid, contentLen int) map[s
 	return out
 }
 
+type c01KeptValue struct {
+	got, want []byte
+	what      string
+}
+
+// c01Kept holds the last whole values handed out by AsBytes, across cases of
+// one worker process.
+var c01Kept []c01KeptValue
+
 // checkReadBack is the C01 monitor for one stored file DAG.
 func checkReadBack(c *mon.Case, st *store.Store, root cid.Cid, content []byte, writer string, chunkBytes int) {
 	w := walkerFor(st)
@@ -120,6 +129,47 @@ func checkReadBack(c *mon.Case, st *store.Store, root cid.Cid, content []byte, w
 		c.Guard("AsBytes", func() {
 			b, err := n.AsBytes()
 			cmp("AsBytes", b, err)
+			// whole values handed out earlier (for this and for other files) must still hold their
+			// own bytes after later calls: a value is not a view of something that is reused
+			for _, k := range c01Kept {
+				if !bytes.Equal(k.got, k.want) {
+					c.Violation("C01|kept-value-changed", "the bytes AsBytes returned earlier for %s (%d bytes) no longer equal that file's content after a later AsBytes on another node (first difference at %d)", k.what, len(k.want), firstDiff(k.got, k.want))
+					c01Kept = nil
+					break
+				}
+			}
+			if err == nil && len(b) > 0 && len(b) <= 1<<16 {
+				c01Kept = append(c01Kept, c01KeptValue{b, append([]byte(nil), content...), fmt.Sprintf("%s/%s", root, name)})
+				if len(c01Kept) > 24 {
+					c01Kept = c01Kept[1:]
+				}
+				c.Count("kept_values_rechecked", int64(len(c01Kept)))
+			}
+		})
+		// a size probe at the end, a read there (end of file), then rewind and stream
+		c.Guard("probe end, read there, rewind, stream", func() {
+			lbp, ok := n.(largeBytes)
+			if !ok {
+				return
+			}
+			r, err := lbp.AsLargeBytes()
+			if err != nil {
+				return
+			}
+			if end, err := r.Seek(0, io.SeekEnd); err != nil || end != int64(len(content)) {
+				c.Violation("C01|seek-end", "[%s] Seek(0,End) = (%d, %v), content length %d", name, end, err, len(content))
+				return
+			}
+			if k, err := r.Read(make([]byte, 8)); k != 0 || err != io.EOF {
+				c.Violation("C01|read-at-end", "[%s] Read at the end returned (%d, %v)", name, k, err)
+				return
+			}
+			if _, err := r.Seek(0, io.SeekStart); err != nil {
+				c.Violation("C01|read-error|rewind", "[%s] rewind: %v", name, err)
+				return
+			}
+			b, err := io.ReadAll(r)
+			cmp("probe-end+rewind+ReadAll", b, err)
 		})
 		lb, ok := n.(largeBytes)
 		if !ok {
